@@ -1784,6 +1784,17 @@ def run_C17(ctx):
         node_of = {o: n for (n, o, d) in nodes if o is not None}
         for rep in range(4 if quick else 20):
             sv = corner_state(net, pv, rng)
+            if rep == 0:
+                # always once: every origin's link jammed to exactly ITS maximum density, demand and queue present (the
+                # flow of a metered or limited simplified origin is then zero, whatever link was there before)
+                for o_, k_ in net.origins.items():
+                    l_ = [e for e in edges if e[0] == node_of[o_]][0][2]
+                    sv[f"rho.{l_}.0"] = pv[f"lp.{l_}.rho_max"]
+                    sv[f"d.{o_}"], sv[f"w.{o_}"] = 5000.0, 5.0
+                    if k_ in ("ramp_in", "ramp_out"):
+                        sv[f"u.{o_}"] = 1.0
+                    elif k_ in ("simp_lim", "simp_unl"):
+                        sv[f"u.{o_}"] = 1500.0
             if dyn.near_excluded(net, pv, sv):
                 continue
             results = []
